@@ -258,8 +258,9 @@ impl<R: RealNumberInternalTrait> Number<R> {
             Number::Integer(num) => Number::Integer(num),
             Number::Real(num) => Number::Real(num.floor()),
             Number::Rational(a, b) => Number::Integer({
+                // a / b truncates towards zero: that is the floor unless the quotient is negative and inexact
                 let quot = a / b;
-                if quot >= 0 || quot * b == a {
+                if (a < 0) == (b < 0) || quot * b == a {
                     quot
                 } else {
                     quot - 1
@@ -273,8 +274,9 @@ impl<R: RealNumberInternalTrait> Number<R> {
             Number::Integer(num) => Number::Integer(num),
             Number::Real(num) => Number::Real(num.ceil()),
             Number::Rational(a, b) => Number::Integer({
+                // a / b truncates towards zero: that is the ceiling unless the quotient is positive and inexact
                 let quot = a / b;
-                if quot <= 0 || quot * b == a {
+                if (a < 0) != (b < 0) || quot * b == a {
                     quot
                 } else {
                     quot + 1
